@@ -299,6 +299,19 @@ impl<'tcx> Dumper<'tcx> {
             }
         }
         let kind = tcx.def_kind(d);
+        if let DefKind::Ctor(of, _) = kind {
+            // tuple-struct / tuple-variant constructor used as a function value (e.g. `.map(Message::Data)`)
+            let sig = tcx.fn_sig(d).instantiate(tcx, args).skip_norm_wip();
+            let out = sig.skip_binder().output();
+            let out = tcx.try_normalize_erasing_regions(env, ty::Unnormalized::new_wip(out)).unwrap_or(out);
+            let mut vidx = 0usize;
+            if let hir::def::CtorOf::Variant = of {
+                if let ty::Adt(adt, _) = out.kind() {
+                    vidx = adt.variant_index_with_ctor_id(d).index();
+                }
+            }
+            o.push(("ctor", J::Obj(vec![("ty", num(self.ty(out))), ("variant", num(vidx))])));
+        }
         if matches!(kind, DefKind::Fn | DefKind::AssocFn) {
             match ty::Instance::try_resolve(tcx, env, d, args) {
                 Ok(Some(inst)) => {
